@@ -5,6 +5,7 @@ import (
 	"context"
 	"fmt"
 	"math/rand/v2"
+	"os"
 	"sort"
 	"strings"
 	"sync"
@@ -480,7 +481,10 @@ func c10Concurrent(o *sim.Outcome, seed uint64, bound int) (porcupine.CheckResul
 			}
 		})
 	}
-	if err := ps.Run(); err != nil {
+	ts := time.Now()
+	err = ps.Run()
+	schedDur := time.Since(ts)
+	if err != nil {
 		return porcupine.Illegal, len(ops), "clients deadlocked: " + err.Error()
 	}
 	disk.Yield = nil
@@ -504,7 +508,11 @@ func c10Concurrent(o *sim.Outcome, seed uint64, bound int) (porcupine.CheckResul
 			break
 		}
 	}
+	t0 := time.Now()
 	res := porcupine.CheckOperationsTimeout(c10Porcupine(bound), ops, 10*time.Second)
+	if os.Getenv("VERIF_DEBUG") != "" {
+		fmt.Fprintf(os.Stderr, "PORCUPINE %v ops=%d sched=%v\n", time.Since(t0), len(ops), schedDur)
+	}
 	detail := ""
 	if res == porcupine.Illegal {
 		var sb strings.Builder
